@@ -169,6 +169,12 @@ def run_programs(ctx, prop, progs, embs=("fiber", "tensor")):
             b["tid"] = len(behs) + 1
             b["emb"] = emb
             behs.append(b)
+            if p["z0"]["e"] and ctx.rng.random() < 0.25 and not any(s_["ch"] in ("touch", "dense", "copyin", "clearit") for s_ in p["script"]):
+                # the same program with the expression built before the destination received its content
+                b = dict(p, prebuilt=1)
+                b["tid"] = len(behs) + 1
+                b["emb"] = emb
+                behs.append(b)
     with cf.ProcessPoolExecutor(max_workers=16) as ex:
         logs = list(ex.map(_exec, behs, chunksize=64))
     from . import family
@@ -211,7 +217,7 @@ def run_sessions(ctx, prop, n):
 
 def classify(lg):
     d = lg["depth"]
-    return f"{lg['emb']}:depth{d}" + (":nonzero-default" if lg.get("dz") or lg.get("da") else "") + (":source-U" if lg.get("au") else "")
+    return f"{lg['emb']}:depth{d}" + (":nonzero-default" if lg.get("dz") or lg.get("da") else "") + (":source-U" if lg.get("au") else "") + (":prebuilt" if lg.get("prebuilt") else "")
 
 
 def run(ctx):
@@ -231,7 +237,7 @@ def run(ctx):
         for (_, cl) in v["fails"]:
             clauses[cl] = clauses.get(cl, 0) + 1
             rec = {"clause": cl, "op": "populate", "where": classify(lg), "step": 1, "detail": {"exc": lg["exc"], "script": lg["script"]},
-                   "behaviour": {k: lg[k] for k in ("z0", "a", "script", "depth", "emb", "dz", "da", "au", "ash")}}
+                   "behaviour": {k: lg[k] for k in ("z0", "a", "script", "depth", "emb", "dz", "da", "au", "ash", "prebuilt")}}
             if cl.startswith("P:C05:"):
                 violations.append(rec)
             else:
